@@ -61,12 +61,19 @@ Qed.
 (* the engine's decision function, seen as the same three rules as the reviewed one *)
 Lemma sc_for_attr_val_rules e a rel :
   sc_for_attr_val e a rel =
-  if bytes_eqb e (B "link") && bytes_eqb a (B "href") &&
-     existsb (fun v => mem_bytes v P_urlLinkRelVals) (fields rel)
+  if bytes_eqb e (B "link") && bytes_eqb a (B "href") && all_url_rel_vals rel
   then Some SC_TRUOrURL
   else if go_match_bytes G_dataAttributeNamePattern a then Some SC_None
   else p_tables a e.
 Proof. reflexivity. Qed.
+
+(* when the engine's (all values) rule fires, the reviewed (some value) rule fires *)
+Lemma all_url_rel_vals_some rel : all_url_rel_vals rel = true ->
+  existsb (fun v => mem_bytes v P_urlLinkRelVals) (fields rel) = true.
+Proof.
+  unfold all_url_rel_vals. destruct (fields rel) as [|v vs]; [discriminate|].
+  cbn [forallb existsb]. intros H. apply andb_true_iff in H as [H _]. rewrite H. reflexivity.
+Qed.
 
 Lemma rel_vals_incl v : mem_bytes v P_urlLinkRelVals = true -> mem_bytes v R_urlLinkRelVals = true.
 Proof.
@@ -91,8 +98,8 @@ Proof.
   rewrite sc_for_attr_val_rules. unfold reviewed_attr.
   destruct names_of_constants as [Nt Nn].
   destruct (bytes_eqb e (B "link") && bytes_eqb a (B "href")) eqn:Elh; cbn [andb].
-  - destruct (existsb (fun v => mem_bytes v P_urlLinkRelVals) (fields rel)) eqn:Ep.
-    + intros H. inversion H; subst sc.
+  - destruct (all_url_rel_vals rel) eqn:Ep.
+    + intros H. inversion H; subst sc. apply all_url_rel_vals_some in Ep.
       assert (Er : existsb (fun v => mem_bytes v R_urlLinkRelVals) (fields rel) = true).
       { apply existsb_exists in Ep as [v [Hin Hv]]. apply existsb_exists. exists v. split; [exact Hin|].
         apply rel_vals_incl; exact Hv. }
